@@ -2652,6 +2652,69 @@ class NetCDFRead(IORead):
         )
 
         if not cf_compliant:
+            # Forget this geometry container, so that it is checked
+            # (and its problems are reported) again for any other
+            # variable that names it
+            del g["geometries"][geometry_ncvar]
+            return
+
+        # Check that the variables named by the geometry container
+        # span the dimensions that are needed to map them: the node
+        # coordinate variables must all span the same single
+        # dimension; the node count variable (or, in its absence, the
+        # node coordinate variables) must span a single dimension of
+        # the parent variable; and the part node count variable must
+        # span a single dimension.
+        parent_dimensions = g["variable_dimensions"][parent_ncvar]
+        node_dimensions = [
+            g["variable_dimensions"][ncvar]
+            for ncvar in parsed_node_coordinates
+        ]
+        node_dimensions = max(node_dimensions, key=node_dimensions.count)
+        for attr, value, ncvars, variable_type in (
+            (
+                "node_coordinates",
+                node_coordinates,
+                parsed_node_coordinates,
+                "Node coordinate variable",
+            ),
+            ("node_count", node_count, parsed_node_count, "Node count variable"),
+            (
+                "part_node_count",
+                part_node_count,
+                parsed_part_node_count,
+                "Part node count variable",
+            ),
+        ):
+            for ncvar in ncvars:
+                dimensions = g["variable_dimensions"][ncvar]
+                if len(dimensions) == 1:
+                    if attr == "node_coordinates":
+                        if dimensions == node_dimensions and (
+                            node_count is not None
+                            or dimensions[0] in parent_dimensions
+                        ):
+                            continue
+                    elif attr == "node_count":
+                        if dimensions[0] in parent_dimensions:
+                            continue
+                    else:
+                        continue
+
+                self._add_message(
+                    parent_ncvar,
+                    ncvar,
+                    message=(variable_type, "spans incorrect dimensions"),
+                    attribute={geometry_ncvar + ":" + attr: value},
+                    dimensions=dimensions,
+                )
+                cf_compliant = False
+
+        if not cf_compliant:
+            # Forget this geometry container, so that it is checked
+            # (and its problems are reported) again for any other
+            # variable that names it
+            del g["geometries"][geometry_ncvar]
             return
 
         part_dimension = None
@@ -5520,7 +5583,7 @@ class NetCDFRead(IORead):
             if attribute == "nodes":
                 # Check geometry node coordinate boounds (CF>=1.8)
                 cf_compliant = self._check_geometry_node_coordinates(
-                    parent_ncvar, bounds_ncvar, geometry
+                    parent_ncvar, bounds_ncvar, geometry, coord_ncvar=ncvar
                 )
             else:
                 # Check other type of bounds
@@ -7787,7 +7850,7 @@ class NetCDFRead(IORead):
         return ok
 
     def _check_geometry_node_coordinates(
-        self, field_ncvar, node_ncvar, geometry
+        self, field_ncvar, node_ncvar, geometry, coord_ncvar=None
     ):
         """Check a geometry node coordinate variable.
 
@@ -7803,12 +7866,22 @@ class NetCDFRead(IORead):
 
             geometry: `dict`
 
+            coord_ncvar: `str`, optional
+                The netCDF variable name of the coordinate variable
+                that names the node coordinate variable. Any problem
+                is recorded against it, so that it is also reported
+                for every other field that contains the coordinate
+                construct.
+
         :Returns:
 
             `bool`
 
         """
         g = self.read_vars
+
+        if coord_ncvar is None:
+            coord_ncvar = field_ncvar
 
         geometry_ncvar = g["variable_geometry"].get(field_ncvar)
 
@@ -7827,7 +7900,7 @@ class NetCDFRead(IORead):
                 node_ncvar,
                 message=message,
                 attribute=attribute,
-                variable=field_ncvar,
+                variable=coord_ncvar,
             )
             return False
 
@@ -7842,7 +7915,7 @@ class NetCDFRead(IORead):
                     "not in node_coordinates",
                 ),
                 attribute=attribute,
-                variable=field_ncvar,
+                variable=coord_ncvar,
             )
             ok = False
 
